@@ -55,6 +55,79 @@ static void get_mod_disp(struct instr *instr_buffer, bool neg) {
 }
 
 /**
+ * checks that @param str consists of a number (decimal or 0x hexadecimal,
+ * optionally negated) and nothing else
+ */
+static bool is_number(const char *str, size_t len) {
+  char buf[FILTERED_STR_LEN];
+  if (len == 0 || len >= sizeof(buf))
+    return false;
+  memcpy(buf, str, len);
+  buf[len] = '\0';
+  const char *digits = buf[0] == '-' ? buf + 1 : buf;
+  if (!IN_RANGE(digits[0], '0', '9'))
+    return false;
+  char *end = NULL;
+  strtoul(buf, &end, (digits[1] == 'x') ? RADIX_16 : RADIX_10);
+  return *end == '\0';
+}
+
+/**
+ * checks that the memory operand @param mem is a well-formed sum of at most a
+ * base register, an (optionally scaled) index register and a displacement, and
+ * that its register tokens are exactly the @param base and @param index that
+ * were extracted from it (nothing was cut off or skipped)
+ */
+static int check_mem_syntax(const char *mem, const char *base,
+                            const char *index) {
+  while (*mem == ' ')
+    mem++;
+  size_t len = strlen(mem);
+  FAIL_IF(len < 3 || mem[0] != '[' || mem[len - 1] != ']');
+  int regs = 0;
+  int numbers = 0;
+  int scaled = 0;
+  size_t pos = 1;
+  while (pos < len - 1) {
+    bool negative = mem[pos] == '-';
+    if (mem[pos] == '+' || mem[pos] == '-')
+      pos++;
+    size_t start = pos;
+    while (pos < len - 1 && mem[pos] != '+' && mem[pos] != '-') {
+      FAIL_IF(mem[pos] == '[' || mem[pos] == ']');
+      pos++;
+    }
+    size_t term_len = pos - start;
+    FAIL_IF(term_len == 0);
+    const char *term = mem + start;
+    const char *star = memchr(term, '*', term_len);
+    if (star != NULL) {
+      // scale*index or index*scale, the scale being a single digit
+      FAIL_IF(negative || ++scaled > 1 || term_len < 3);
+      const char *name = term;
+      size_t name_len = term_len - 2;
+      if (star == term + 1)
+        name = term + 2;
+      else
+        FAIL_IF(star != term + term_len - 2);
+      FAIL_IF(memchr(name, '*', name_len) != NULL);
+      FAIL_IF(strlen(index) != name_len || strncmp(index, name, name_len));
+      regs++;
+    } else if (IN_RANGE(term[0], 'a', 'z')) {
+      FAIL_IF(negative || ++regs > 2);
+      bool is_base = strlen(base) == term_len && !strncmp(base, term, term_len);
+      bool is_index =
+          strlen(index) == term_len && !strncmp(index, term, term_len);
+      FAIL_IF(!is_base && !is_index);
+    } else {
+      FAIL_IF(++numbers > 1 || !is_number(term, term_len));
+    }
+  }
+  FAIL_IF(regs > 2 || regs + numbers == 0);
+  return EXIT_SUCCESS;
+}
+
+/**
  * Given an instance of @param instr_buffer convert a memory displacement string
  * representation @param mem into its equivalent unsigned long representation
  */
@@ -69,6 +142,9 @@ static int mem_tok(struct instr *instr_buffer, char *mem, int opd_pos) {
   int index_add = find_add_mem(mem, &neg, &base);
   int index_const = find_mem_const(mem, &neg, &base);
   FAIL_IF_MSG(get_index_reg(instr_buffer, mem, instr_buffer->opd[opd_pos].sib),
+              "invalid memory syntax\n");
+  FAIL_IF_MSG(check_mem_syntax(mem, instr_buffer->opd[opd_pos].str,
+                               instr_buffer->opd[opd_pos].sib),
               "invalid memory syntax\n");
   instr_buffer->mem_offset = 0;
   // convert string to unsigned long for memory displacement representation
@@ -92,7 +168,7 @@ static int mem_tok(struct instr *instr_buffer, char *mem, int opd_pos) {
  * Given an instance of @param instr_buffer convert a immediate string
  * representation @param imme into its equivalent unsigned long representation
  */
-static void imm_tok(struct instr *instr_buffer, char *imme) {
+static int imm_tok(struct instr *instr_buffer, char *imme) {
 
   size_t imme_str_len = strlen(imme);
   char *saved_saved = NULL;
@@ -109,7 +185,9 @@ static void imm_tok(struct instr *instr_buffer, char *imme) {
     instr_buffer->assembly_opt |= NASM_MOV_IMM;
   }
   // convert string to unsigned long for immediate representation
+  FAIL_IF_MSG(!is_number(imme, strlen(imme)), "invalid immediate\n");
   instr_buffer->cons = strtoul(imme, NULL, base);
+  return EXIT_SUCCESS;
 }
 
 /**
@@ -181,7 +259,7 @@ static int check_operand_type(struct instr *instr_buffer, char *all_opd,
   switch (instr_buffer->opd[opd_pos].type) {
   // convert immediate to unsigned long
   case 'i':
-    imm_tok(instr_buffer, all_opd);
+    FAIL_IF(imm_tok(instr_buffer, all_opd));
     if (strtok_r(NULL, "", &saved_opd) == NULL)
       return EXIT_SUCCESS;
     FAIL_IF_MSG(true, "cannot have an operand after immediate\n");
@@ -195,6 +273,11 @@ static int check_operand_type(struct instr *instr_buffer, char *all_opd,
     get_reg_str(all_opd, instr_buffer->opd[opd_pos].str);
     if (instr_buffer->opd[opd_pos].type == 'm')
       return mem_tok(instr_buffer, all_opd, opd_pos);
+    // a register operand is the register name and nothing else
+    while (*all_opd == ' ')
+      all_opd++;
+    FAIL_IF_VAR(strcmp(all_opd, instr_buffer->opd[opd_pos].str),
+                "illegal register operand: \"%s\"\n", all_opd);
     return EXIT_SUCCESS;
   // operand type is not found
   default:
